@@ -72,3 +72,22 @@ def c19_normalize_needs_second_round(c, k):
     Covered: the two forms have the same value and the second result is a fixpoint.  A normalisation that changes the value,
     or that keeps changing, is not covered."""
     return c.get('kind') == 'normalize-not-idempotent' and c.get('same_value') is True and c.get('second_round_is_fixpoint') is True
+
+
+@matcher('c19_substitution_across_pole_of_map')
+def c19_substitution_across_pole_of_map(c, k):
+    """Substitution(u = 1/x) and SubstitutionInverse(x = 1/u) are applied to an integral whose interval contains the pole x = 0 of the
+    map in its interior ([-1,2], [-a,a]): the rules do not check that the map is continuous on the interval and return an integral
+    across u = 0 of a non-integrable integrand (no value).  Only these two maps on intervals with 0 strictly inside are covered."""
+    if c.get('kind') not in ('step-result-undefined:Substitution', 'step-result-undefined:SubstitutionInverse'):
+        return False
+    return c.get('rule') in ('Substitution(u,1/x)', 'SubstitutionInverse(u,1/u)') and str(c.get('before', '')).startswith(('INT x:[-1,2].', 'INT x:[-a,a].'))
+
+
+@matcher('c19_split_region_outside_interval_across_pole')
+def c19_split_region_outside_interval_across_pole(c, k):
+    """SplitRegion accepts a split point outside the interval of integration; for the integrand 1 / x ^ 2 and a point on the other
+    side of the pole x = 0 both new integrals run across the pole and have no value.  Only this integrand with a split point on the
+    other side of 0 is covered."""
+    # any split of an integral of 1 / x ^ 2 whose result has no value has put the split point beyond the pole
+    return c.get('kind') == 'step-result-undefined:SplitRegion' and '1 / x ^ 2' in str(c.get('before', ''))
